@@ -33,7 +33,8 @@ def base_build(repo, features=()):
             shutil.rmtree(dst)
         shutil.copytree(src, dst, ignore=shutil.ignore_patterns("target", "Cargo.lock"))
         p = os.path.join(dst, "Cargo.toml")
-        open(p, "w").write(open(p).read().replace('path = "/repo"', 'path = "%s"' % os.path.abspath(repo)))
+        txt = open(p).read().replace('path = "/repo"', 'path = "%s"' % os.path.abspath(repo))
+        open(p, "w").write(txt)
         src = dst
     lock = os.path.join(repo, "Cargo.lock")
     if os.path.exists(lock):
@@ -76,6 +77,8 @@ def base_build(repo, features=()):
         if rlib is None:
             raise WitnessError("gecs rlib not found in cargo output")
         _base[key] = (rlib, deps)
+        if os.path.abspath(repo) != "/repo":
+            shutil.rmtree(src, ignore_errors=True)
         return _base[key]
     finally:
         fcntl.flock(lockf, fcntl.LOCK_UN)
